@@ -34,7 +34,7 @@ def run_pipeline(case, world, idx, op, results, rep, cpus):
         o1 = run_call(world, op_f, idx, op.get('plan_f'), None, results, cpus)
         rep['lib_calls'] += 1
         if not o1.ok:
-            return [V('valid_completes', ['C15'],
+            return [V('valid_completes', ['C15', 'C07'],
                       'C15 %s stage1-raises:%s' % (comp, o1.exc_class),
                       'filter_tables raised %s' % o1.brief(), tb=o1.tb)]
         if measure == 'EDIT_DISTANCE':
@@ -58,7 +58,7 @@ def run_pipeline(case, world, idx, op, results, rep, cpus):
         o2 = run_call(world, op_m, idx, op.get('plan_m'), None, results2, cpus)
         rep['lib_calls'] += 1
         if not o2.ok:
-            return [V('valid_completes', ['C15'],
+            return [V('valid_completes', ['C15', 'C07'],
                       'C15 %s stage2-raises:%s' % (comp, o2.exc_class),
                       'apply_matcher raised %s' % o2.brief(), tb=o2.tb)]
         op_j = {'op': 'join', 'measure': measure, 'l': op['l'], 'r': op['r'],
@@ -73,7 +73,7 @@ def run_pipeline(case, world, idx, op, results, rep, cpus):
         o3 = run_call(world, op_j, idx, op.get('plan_j'), None, results, cpus)
         rep['lib_calls'] += 1
         if not o3.ok:
-            return [V('valid_completes', ['C15'],
+            return [V('valid_completes', ['C15', 'C07'],
                       'C15 %s join-raises:%s' % (comp, o3.exc_class),
                       'join raised %s' % o3.brief(), tb=o3.tb)]
         svs, _ = check_state(world, True, op)
